@@ -96,6 +96,8 @@ theorem step_agnostic (o : Ops) (s : MSt) (e : MEv) (h : RefFreeEv e) :
   | stop tag => rfl
   | data t => rfl
   | ns p u => rfl
+  | cref r => rfl
+  | eref r => rfl
 
 /-- **Back-end agnostic**: on every event stream whose attribute values contain no `&` (no
 references, no escaped ampersands) the handler machine driven by the loose back end and by the
@@ -113,8 +115,47 @@ theorem backend_agnostic (o : Ops) (evs : List MEv) (h : ∀ e ∈ evs, RefFreeE
     · exact ih (fun x hx => h x (by simp [hx])) _
     · rfl
 
+/-! ### "at most how references are decoded" — what the loose back end makes of the references an XML processor must know
+
+expat hands the handlers the CHARACTER for the five predefined entities and for every character reference.  The loose back end keeps the five (and the ten
+numeric spellings of `< > & " '`) as references while collecting text (`handle_entityref`, `handle_charref`) and decodes them in `pop()` (`decode_entities`)
+— but only when the element has a content type that does not end in `xml`. -/
+
+theorem erefText_predefined (o : Ops) (r : Str)
+    (h : (r == S "lt" || r == S "gt" || r == S "quot" || r == S "amp" || r == S "apos") = true) : erefText o r = ['&'] ++ r ++ [';'] := by
+  unfold erefText erefTextF
+  simp only [h, ↓reduceIte]
+
+/-- inside a text construct of a non-XML type the two back ends agree on the predefined entities and on their numeric spellings -/
+theorem predefined_refs_decode_like_expat (o : Ops) :
+    looseDecode (S "text/plain") (erefText o (S "amp")) = S "&" ∧ looseDecode (S "text/html") (erefText o (S "lt")) = S "<" ∧
+    looseDecode (S "text/plain") (erefText o (S "gt")) = S ">" ∧ looseDecode (S "text/html") (erefText o (S "quot")) = S "\"" ∧
+    looseDecode (S "text/plain") (erefText o (S "apos")) = S "'" ∧
+    (crefText (S "38")).map (looseDecode (S "text/plain")) = some (S "&") ∧ (crefText (S "x3C")).map (looseDecode (S "text/html")) = some (S "<") ∧
+    (crefText (S "62")).map (looseDecode (S "text/plain")) = some (S ">") ∧ (crefText (S "x22")).map (looseDecode (S "text/plain")) = some (S "\"") ∧
+    (crefText (S "39")).map (looseDecode (S "text/plain")) = some (S "'") := by
+  rw [erefText_predefined o (S "amp") (by decide +kernel), erefText_predefined o (S "lt") (by decide +kernel), erefText_predefined o (S "gt") (by decide +kernel),
+    erefText_predefined o (S "quot") (by decide +kernel), erefText_predefined o (S "apos") (by decide +kernel)]
+  decide +kernel
+
+/-- …and OUTSIDE text constructs (no content parameters: the type counts as `xml`) the loose back end leaves them encoded — the difference the property
+allows ("changes at most how references are decoded"): `<guid>a&amp;b</guid>` is `a&b` for the strict back end and `a&amp;b` for the loose one -/
+theorem predefined_refs_stay_encoded_outside_text_constructs (o : Ops) :
+    looseDecode (S "xml") (erefText o (S "amp")) = S "&amp;" ∧ (crefText (S "38")).map (looseDecode (S "xml")) = some (S "&amp;") ∧
+    (crefText (S "60")).map (looseDecode (S "xml")) = some (S "&lt;") := by
+  rw [erefText_predefined o (S "amp") (by decide +kernel)]
+  decide +kernel
+
+/-- every other character reference is decoded at once, to the character expat would deliver (U+FFFD for what is not a character) -/
+theorem other_charrefs_are_characters : crefText (S "65") = some ['A'] ∧ crefText (S "x41") = some ['A'] ∧ crefText (S "X41") = some ['A'] ∧
+    crefText (S "xD800") = some [Char.ofNat 0xFFFD] ∧ crefText (S "1114112") = some [Char.ofNat 0xFFFD] := by decide +kernel
+
 /-- with an escaped ampersand in an attribute the two hooks DO differ (that is the compensation for
 sgmllib not decoding references in attribute values) -/
 example : normAttr true (S "href", S "?a=1&amp;b=2") ≠ normAttr false (S "href", S "?a=1&amp;b=2") := by decide
+
+/-- the source of the hand-modelled reference callbacks (`handle_charref`, `handle_entityref`, `handle_data`) and of both back ends' `decode_entities` is the one the
+model was written from (fingerprints recomputed from /repo on every run; the list names the functions whose body changed) -/
+theorem stage6_source_unchanged_c11 : Gen.Mixin.stage6ChangedL = [] := by decide
 
 end FeedVerif.Mixin
